@@ -79,6 +79,14 @@ def reproduces(h, claim, values, symbolic_error=None):
             if symbolic_error and any(t in symbolic_error for t in ("'SymX'", "'SymInt'", "'SymBool'", 'symbolic real')) \
                     and (rec.get('error') or '') != symbolic_error:
                 same = False      # the symbolic path failed because of a proxy limitation, not because of the code
+                # ... but the path's model is still a concrete input of the real code: if the property's claims fail
+                # on it (ordinary floats, real numpy semantics, e.g. a cast the proxies cannot follow), that is a
+                # reproduced violation found by the concrete twin of this path
+                if rec['status'] == 'ok' and any(s_ != 'ok' for _, s_ in rec['claims']):
+                    rec = dict(rec, notes=list(rec.get('notes', [])) + [
+                        'symbolic path stopped at a proxy limitation (%s); violation shown by the concrete run of the path model'
+                        % symbolic_error[:120]])
+                    return True, rec, exact
             if rec['status'] == 'error' and same:
                 return True, rec, exact
             continue
